@@ -3,7 +3,7 @@
 //! (derive / commit determinism, bulletproof create / verify / rewind), and the transaction /
 //! coinbase builder.
 //!
-//! modes (argv[1]): codec | arith | crypto | build | viewkey | history
+//! modes (argv[1]): codec | arith | crypto | build | viewkey | history | seeds
 use std::convert::TryFrom;
 use std::panic::AssertUnwindSafe;
 
@@ -179,6 +179,153 @@ fn arith(out: &mut Out, rng: &mut Rng, thorough: bool) {
 	let n = if thorough { 30000 } else { 3000 };
 	let (mut n_ok, mut n_err, mut n_panic, mut n_zero_ops, mut n_invalid_ops) = (0u64, 0u64, 0u64, 0u64, 0u64);
 	let mut size_hist = [0u64; 16];
+
+	// --- zero operands in EVERY position (deterministic block): k.add(0), 0.add(k), 0.add(0),
+	// k.split(0), 0.split(k), whole.split(part) then add back, sums of lists with the zero key in
+	// first / middle / last position and on either side, sums that cancel to zero
+	{
+		let z = [0u8; 32];
+		let mut zero_cases = 0u64;
+		let ks: Vec<[u8; 32]> = (0..(if thorough { 40 } else { 12 }))
+			.map(|i| match i {
+				0 => small(1),
+				1 => sub_small(&ORDER, 1),
+				2 => small(2),
+				_ => gen_scalar(rng, false, false),
+			})
+			.collect();
+		let add_line = |out: &mut Out, a: &[u8; 32], b: &[u8; 32]| -> String {
+			let r = bf_res(catch(AssertUnwindSafe(|| BlindingFactor::from_slice(a).add(&BlindingFactor::from_slice(b), &secp))));
+			out.line(&format!("keys bfadd {} {}", hex(a), hex(b)), &r);
+			r
+		};
+		let split_line = |out: &mut Out, a: &[u8; 32], b: &[u8; 32]| -> String {
+			let r = bf_res(catch(AssertUnwindSafe(|| BlindingFactor::from_slice(a).split(&BlindingFactor::from_slice(b), &secp))));
+			out.line(&format!("keys bfsplit {} {}", hex(a), hex(b)), &r);
+			r
+		};
+		let from_hex32 = |h: &str| -> [u8; 32] {
+			let mut o = [0u8; 32];
+			for i in 0..32 {
+				o[i] = u8::from_str_radix(&h[2 * i..2 * i + 2], 16).unwrap();
+			}
+			o
+		};
+		let r = add_line(out, &z, &z);
+		if r != hex(&z) {
+			out.raw(&format!("#ORACLE-FAIL C20 0.add(0) is {} (expected the zero factor)", r));
+		}
+		let r = split_line(out, &z, &z);
+		if r != "err" {
+			out.raw(&format!("#ORACLE-FAIL C20 0.split(0) is {} (expected InvalidSecretKey)", r));
+		}
+		zero_cases += 2;
+		for (i, k) in ks.iter().enumerate() {
+			// add: zero is neutral on either side
+			for (a, b) in [(k, &z), (&z, k)].iter() {
+				let r = add_line(out, a, b);
+				if r != hex(k) {
+					out.raw(&format!("#ORACLE-FAIL C20 adding the zero factor changes the value: {}.add({}) = {}", hex(*a), hex(*b), r));
+				}
+			}
+			// split by zero: the second part is the whole; adding back gives the whole
+			let r = split_line(out, k, &z);
+			if r != hex(k) {
+				out.raw(&format!("#ORACLE-FAIL C20 k.split(0) is {} for k={}", r, hex(k)));
+			}
+			// split of zero by k: the second part is -k; adding back is an error (zero is not a key)
+			let r = split_line(out, &z, k);
+			if r.len() == 64 {
+				let back = add_line(out, k, &from_hex32(&r));
+				if back != "err" {
+					out.raw(&format!("#ORACLE-FAIL C20 0.split(k) then add back: expected InvalidSecretKey, got {} (k={})", back, hex(k)));
+				}
+			}
+			// whole.split(part) then add back
+			let part = &ks[(i + 1) % ks.len()];
+			if part != k {
+				let r = split_line(out, k, part);
+				if r.len() == 64 {
+					let p2 = from_hex32(&r);
+					for (a, b) in [(part, &p2), (&p2, part)].iter() {
+						let back = add_line(out, a, b);
+						if back != hex(k) {
+							out.raw(&format!("#ORACLE-FAIL C20 whole.split(part) then add back != whole: whole={} part={} part2={} got={}", hex(k), hex(part), r, back));
+						}
+					}
+				} else {
+					out.raw(&format!("#ORACLE-FAIL C20 whole.split(part) failed: whole={} part={} => {}", hex(k), hex(part), r));
+				}
+			}
+			// lists with the zero key in first / middle / last position, on either side
+			let a = &ks[(i + 2) % ks.len()];
+			let b = &ks[(i + 5) % ks.len()];
+			let base = sum_res(catch(AssertUnwindSafe(|| secp.blind_sum(vec![raw_key(k), raw_key(a)], vec![raw_key(b)]))));
+			out.line(&format!("keys bsum {} {}", keys_list(&[*k, *a]), keys_list(&[*b])), &base);
+			let variants: Vec<(Vec<[u8; 32]>, Vec<[u8; 32]>)> = vec![
+				(vec![z, *k, *a], vec![*b]),
+				(vec![*k, z, *a], vec![*b]),
+				(vec![*k, *a, z], vec![*b]),
+				(vec![*k, *a], vec![z, *b]),
+				(vec![*k, *a], vec![*b, z]),
+				(vec![z, *k, z, *a, z], vec![z, *b, z]),
+			];
+			for (p, q) in variants {
+				let r = sum_res(catch(AssertUnwindSafe(|| secp.blind_sum(p.iter().map(raw_key).collect(), q.iter().map(raw_key).collect()))));
+				out.line(&format!("keys bsum {} {}", keys_list(&p), keys_list(&q)), &r);
+				zero_cases += 1;
+				if r != base {
+					out.raw(&format!("#ORACLE-FAIL C20 a zero operand changes a blind sum: pos={} neg={} => {} (without zeros {})", keys_list(&p), keys_list(&q), r, base));
+				}
+			}
+			// sums that are zero: only zeros; k - k with zeros around
+			for (p, q) in [(vec![z], vec![]), (vec![z, z], vec![z]), (vec![z, *k], vec![*k, z]), (vec![*k, z], vec![z, *k])].iter() {
+				let r = sum_res(catch(AssertUnwindSafe(|| secp.blind_sum(p.iter().map(raw_key).collect(), q.iter().map(raw_key).collect()))));
+				out.line(&format!("keys bsum {} {}", keys_list(p), keys_list(q)), &r);
+				zero_cases += 1;
+				if r != "err" {
+					out.raw(&format!("#ORACLE-FAIL C20 a blind sum that is zero must be InvalidSecretKey: pos={} neg={} => {}", keys_list(p), keys_list(q), r));
+				}
+			}
+			// ExtKeychain::blind_sum: zero factors in every position; a sum of factors that is zero
+			let orders: Vec<(Vec<[u8; 32]>, Vec<[u8; 32]>)> = vec![
+				(vec![z, *k], vec![]),
+				(vec![*k, z], vec![]),
+				(vec![*k, z, *a], vec![z]),
+				(vec![*k], vec![z, *a]),
+				(vec![z], vec![z]),
+				(vec![*k, z], vec![z, *k]),
+			];
+			for (p, q) in orders {
+				let mut bs = BlindSum::new();
+				for x in &p {
+					bs = bs.add_blinding_factor(BlindingFactor::from_slice(x));
+				}
+				for x in &q {
+					bs = bs.sub_blinding_factor(BlindingFactor::from_slice(x));
+				}
+				let r = bf_res(catch(AssertUnwindSafe(|| keychain.blind_sum(&bs))));
+				out.line(&format!("keys kbsum [] [] {} {}", keys_list(&p), keys_list(&q)), &r);
+				zero_cases += 1;
+			}
+			// sum_kernel_offsets with zero offsets in every position
+			for (p, q) in [(vec![z, *k], vec![z]), (vec![*k, z], vec![]), (vec![z], vec![*k]), (vec![z, z], vec![z])].iter() {
+				let r = bf_res(catch(AssertUnwindSafe(|| {
+					committed::sum_kernel_offsets(
+						p.iter().map(|x| BlindingFactor::from_slice(x)).collect(),
+						q.iter().map(|x| BlindingFactor::from_slice(x)).collect(),
+					)
+				})));
+				out.line(&format!("keys koff {} {}", keys_list(p), keys_list(q)), &r);
+				zero_cases += 1;
+			}
+		}
+		out.raw(&format!(
+			"#STAT arith zero-operand block: keys={} cases with a zero operand (add/split on either side, zero first/middle/last in blind_sum lists on either side, zero sums, keychain sums, kernel offsets)={}",
+			ks.len(),
+			zero_cases + 5 * ks.len() as u64
+		));
+	}
 
 	// --- Secp256k1::blind_sum on secret keys (zero key and raw out-of-range keys included)
 	for case in 0..n {
@@ -1781,6 +1928,191 @@ fn ser_sig(k: &TxKernel) -> Vec<u8> {
 	grin_core::ser::ser_vec(k, grin_core::ser::ProtocolVersion(2)).unwrap()
 }
 
+// ---------------------------------------------------------------------------------------------
+// seeds of every length; pairs of seeds with a long common prefix
+// ---------------------------------------------------------------------------------------------
+
+fn seeds(out: &mut Out, rng: &mut Rng, thorough: bool) {
+	let secp = Secp256k1::with_caps(secp::ContextFlag::Commit);
+	let mut stat: std::collections::BTreeMap<String, u64> = Default::default();
+	macro_rules! bump {
+		($k:expr) => {
+			*stat.entry($k).or_insert(0) += 1
+		};
+	}
+	let mut proofs = 0u64;
+	let lengths: [usize; 9] = [16, 32, 33, 63, 64, 65, 96, 128, 255];
+	// (name, seed A, seed B)
+	let mut pairs: Vec<(String, Vec<u8>, Vec<u8>)> = vec![];
+	// every length: a keychain exists, rewinds its own output; two random seeds of that length differ
+	for len in lengths.iter() {
+		let a = rng.bytes(*len);
+		let ok = ExtKeychain::from_seed(&a, true).is_ok() && ExtKeychain::from_seed(&a, false).is_ok();
+		out.line(&format!("keys seedlen {}", len), if ok { "ok" } else { "err" });
+		if !ok {
+			out.raw(&format!("#ORACLE-FAIL C20 ExtKeychain::from_seed fails for a seed of {} bytes: {}", len, hex(&a)));
+			continue;
+		}
+		let b = rng.bytes(*len);
+		pairs.push((format!("random-len{}", len), a, b));
+	}
+	// common prefix of p bytes, differing only in the tail
+	for p in [16usize, 32, 63, 64, 65, 95].iter() {
+		let prefix = rng.bytes(*p);
+		// same length, only the last byte differs
+		let mut a = prefix.clone();
+		let mut b = prefix.clone();
+		let x = rng.next() as u8;
+		a.push(x);
+		b.push(x ^ (1 << rng.below(8)));
+		pairs.push((format!("prefix{}-last-byte", p), a, b));
+		// one seed is a strict prefix of the other (zero byte / random tail appended)
+		let a = prefix.clone();
+		let mut b = prefix.clone();
+		b.push(0);
+		if *p >= 16 {
+			pairs.push((format!("prefix{}-strict-prefix-plus-zero", p), a.clone(), b));
+		}
+		let mut b = prefix.clone();
+		let extra = rng.range(1, 40) as usize;
+		b.extend(rng.bytes(extra));
+		pairs.push((format!("prefix{}-strict-prefix-plus-tail", p), a, b));
+		// long different tails after the common prefix
+		let mut a = prefix.clone();
+		let mut b = prefix.clone();
+		a.extend(rng.bytes(32));
+		b.extend(rng.bytes(32));
+		pairs.push((format!("prefix{}-tails", p), a, b));
+	}
+	// the symmetric case: only the first byte differs
+	for len in [16usize, 32, 64, 65, 96, 255].iter() {
+		let a = rng.bytes(*len);
+		let mut b = a.clone();
+		b[0] ^= 1 << rng.below(8);
+		pairs.push((format!("first-byte-len{}", len), a, b));
+	}
+	// only a middle byte / only the last bit
+	for len in [33usize, 64, 128].iter() {
+		let a = rng.bytes(*len);
+		let mut b = a.clone();
+		b[*len / 2] ^= 0x80;
+		pairs.push((format!("middle-byte-len{}", len), a, b));
+	}
+	for (pi, (name, sa, sb)) in pairs.iter().enumerate() {
+		let is_test = pi % 2 == 0;
+		let (ka, kb) = match (ExtKeychain::from_seed(sa, is_test), ExtKeychain::from_seed(sb, is_test)) {
+			(Ok(a), Ok(b)) => (a, b),
+			_ => {
+				out.raw(&format!("#ORACLE-FAIL C20 from_seed failed: {} / {}", hex(sa), hex(sb)));
+				continue;
+			}
+		};
+		bump!(format!("pair={}", name.split("-len").next().unwrap().to_string()));
+		bump!(format!("lenA={}", sa.len()));
+		let tag = format!("{} A={} B={}", name, hex(sa), hex(sb));
+		let lhs = |what: &str| format!("keys seedpair {} {} {} {}", what, sa.len(), sb.len(), name);
+		let cmp_tag = tag.clone();
+		let cmp = move |out: &mut Out, what: &str, same: bool| {
+			out.line(&lhs(what), if same { "same" } else { "differ" });
+			if same {
+				out.raw(&format!("#ORACLE-FAIL C20 two different seeds give the same {}: {}", what, cmp_tag));
+			}
+		};
+		cmp(out, "master", ka.master.secret_key == kb.master.secret_key);
+		cmp(out, "chaincode", ka.master.chain_code == kb.master.chain_code);
+		cmp(out, "rootpub", ka.public_root_key() == kb.public_root_key());
+		// an identifier of depth 3 with small normal words: every builder generation and the root
+		// view key can recover it (legacy: Regular only)
+		let ids: Vec<Identifier> = if thorough {
+			vec![ExtKeychain::derive_key_id(3, rng.below(9) as u32, rng.below(9) as u32, rng.below(9) as u32, 0), rand_id(rng, 3), rand_id_any(rng)]
+		} else {
+			vec![ExtKeychain::derive_key_id(3, rng.below(9) as u32, rng.below(9) as u32, rng.below(9) as u32, 0)]
+		};
+		let nb_a = ProofBuilder::new(&ka);
+		let lb_a = LegacyProofBuilder::new(&ka);
+		let nb_b = ProofBuilder::new(&kb);
+		let lb_b = LegacyProofBuilder::new(&kb);
+		let mut ha = ka.hasher();
+		let mut hb = kb.hasher();
+		let vk_a = ViewKey::create(&ka, ka.master.clone(), &mut ha, is_test).unwrap();
+		let vk_b = ViewKey::create(&kb, kb.master.clone(), &mut hb, is_test).unwrap();
+		for (ii, id) in ids.iter().enumerate() {
+			let idh = hex(&id.to_bytes());
+			let amount = match (pi + ii) % 4 {
+				0 => u64::MAX,
+				1 => 1,
+				2 => 1 << 63,
+				_ => rng.next() | 1,
+			};
+			for sw in SWITCHES.iter() {
+				let ca = ka.commit(amount, id, *sw).unwrap();
+				let cb = kb.commit(amount, id, *sw).unwrap();
+				cmp(out, &format!("commit-{}", sw_name(*sw)), ca == cb);
+				cmp(out, &format!("key-{}", sw_name(*sw)), ka.derive_key(amount, id, *sw).unwrap() == kb.derive_key(amount, id, *sw).unwrap());
+				// rewind nonces for the SAME commitment
+				let na = nb_a.rewind_nonce(&secp, &ca).unwrap();
+				let nbb = nb_b.rewind_nonce(&secp, &ca).unwrap();
+				cmp(out, &format!("nonce-new-{}", sw_name(*sw)), na == nbb);
+				let la = lb_a.rewind_nonce(&secp, &ca).unwrap();
+				let lbn = lb_b.rewind_nonce(&secp, &ca).unwrap();
+				cmp(out, &format!("nonce-legacy-{}", sw_name(*sw)), la == lbn);
+				let va = vk_a.rewind_nonce(&secp, &ca).unwrap();
+				let vb = vk_b.rewind_nonce(&secp, &ca).unwrap();
+				cmp(out, &format!("nonce-view-{}", sw_name(*sw)), va == vb);
+				for kind in ["new", "legacy"].iter() {
+					let is_new = *kind == "new";
+					let proof = if is_new {
+						proof::create(&ka, &nb_a, amount, id, *sw, ca, None)
+					} else {
+						proof::create(&ka, &lb_a, amount, id, *sw, ca, None)
+					}
+					.unwrap();
+					proofs += 1;
+					bump!(format!("proofs {} {}", kind, sw_name(*sw)));
+					// the seed rewinds its own
+					let own = if is_new {
+						rewind_str(catch(AssertUnwindSafe(|| proof::rewind(&secp, &nb_a, ca, None, proof))))
+					} else {
+						rewind_str(catch(AssertUnwindSafe(|| proof::rewind(&secp, &lb_a, ca, None, proof))))
+					};
+					out.line(&format!("keys rewind {} {} {} {}", kind, idh, sw_name(*sw), amount), &own);
+					bump!(format!("own {}:{}", kind, own.split(' ').next().unwrap()));
+					let must_recover = is_new || (id.to_bytes()[0] == 3 && *sw == SwitchCommitmentType::Regular);
+					if must_recover && own != format!("some {} {} {}", idh, sw_name(*sw), amount) {
+						out.raw(&format!("#ORACLE-FAIL C20 a seed of {} bytes does not rewind its own output ({} builder => {}): id={} sw={} amount={} seed={}", sa.len(), kind, own, idh, sw_name(*sw), amount, hex(sa)));
+					}
+					if is_new {
+						let r = rewind_str(catch(AssertUnwindSafe(|| proof::rewind(&secp, &vk_a, ca, None, proof))));
+						out.line(&format!("keys rewind view {} {} {}", idh, sw_name(*sw), amount), &r);
+						bump!(format!("own view:{}", r.split(' ').next().unwrap()));
+					}
+					// the other seed recovers nothing: both builder generations and the view key
+					let others: [(&str, String); 3] = [
+						("new", rewind_str(catch(AssertUnwindSafe(|| proof::rewind(&secp, &nb_b, ca, None, proof))))),
+						("legacy", rewind_str(catch(AssertUnwindSafe(|| proof::rewind(&secp, &lb_b, ca, None, proof))))),
+						("view", rewind_str(catch(AssertUnwindSafe(|| proof::rewind(&secp, &vk_b, ca, None, proof))))),
+					];
+					for (who, r) in others.iter() {
+						out.line(
+							&format!("keys rewind_other {}-proof-by-{}-of-other-seed {} {} {} {} {}", kind, who, name, sa.len(), idh, sw_name(*sw), amount),
+							r,
+						);
+						bump!(format!("other {}:{}", who, r.split(' ').next().unwrap()));
+						if r != "none" {
+							out.raw(&format!(
+								"#ORACLE-FAIL C20 an output built under one seed is rewound by the {} of another seed (=> {}): proof builder={} id={} sw={} amount={} {}",
+								who, r, kind, idh, sw_name(*sw), amount, tag
+							));
+						}
+					}
+				}
+			}
+		}
+	}
+	out.raw(&format!("#STAT seeds lengths={:?} pairs={} bulletproofs created={}", lengths, pairs.len(), proofs));
+	out.raw(&format!("#STAT seeds distribution={:?}", stat));
+}
+
 /// diagnostic (not part of the check): which single-bit flips of a bulletproof still verify
 fn malleable(out: &mut Out, rng: &mut Rng) {
 	let secp_v = Secp256k1::with_caps(secp::ContextFlag::Commit);
@@ -1819,6 +2151,7 @@ fn main() {
 		"build" => builder(&mut out, &mut rng, thorough),
 		"viewkey" => viewkey(&mut out, &mut rng, thorough),
 		"history" => history(&mut out, &mut rng, thorough),
+		"seeds" => seeds(&mut out, &mut rng, thorough),
 		"malleable" => malleable(&mut out, &mut rng),
 		_ => {
 			eprintln!("unknown mode {}", mode);
